@@ -62,6 +62,7 @@ type Opts struct {
 	NamedColl  bool // NStrs, NMap
 	Twins      bool // sibling struct fields whose types differ only in skipped fields
 	DeepPtrs   bool // user pointers to nil-able things: *[]T, *map[K]V, **T
+	NilElems   bool // arrays, slices and maps whose ELEMENTS are nil-able ([3]*T, [2][]T, []map[string]T, map[string]*T): replaced as a whole, never slot by slot
 	IfaceSkip  bool // interface{} fields (defaults: nil, a func or a chan; no layer ever sets them)
 }
 
@@ -72,6 +73,21 @@ func AllOpts(depth, width int) Opts {
 }
 
 func basic(r *coqfmt.Rng) reflect.Type { return basics[r.Intn(len(basics))] }
+
+// elemType draws the element type of an array, slice or map leaf
+func elemType(r *coqfmt.Rng, o Opts) reflect.Type {
+	if o.NilElems && r.Chance(1, 3) {
+		switch r.Intn(3) {
+		case 0:
+			return reflect.PtrTo(basic(r))
+		case 1:
+			return reflect.SliceOf(basic(r))
+		default:
+			return reflect.MapOf(reflect.TypeOf(""), basic(r))
+		}
+	}
+	return basic(r)
+}
 
 // leafType draws a non-struct field type.
 func leafType(r *coqfmt.Rng, o Opts) reflect.Type {
@@ -84,18 +100,18 @@ func leafType(r *coqfmt.Rng, o Opts) reflect.Type {
 				if o.NamedColl && r.Chance(1, 4) {
 					return reflect.TypeOf(NStrs(nil))
 				}
-				return reflect.SliceOf(basic(r))
+				return reflect.SliceOf(elemType(r, o))
 			}
 		case 5:
 			if o.Maps {
 				if o.NamedColl && r.Chance(1, 4) {
 					return reflect.TypeOf(NMap(nil))
 				}
-				return reflect.MapOf(reflect.TypeOf(""), basic(r))
+				return reflect.MapOf(reflect.TypeOf(""), elemType(r, o))
 			}
 		case 6:
 			if o.Arrays {
-				return reflect.ArrayOf(1+r.Intn(3), basic(r))
+				return reflect.ArrayOf(1+r.Intn(3), elemType(r, o))
 			}
 		case 7:
 			if o.TextU {
